@@ -269,3 +269,22 @@ impl Bundle<&crate::FrameHeader> for Toc {
         })
     }
 }
+
+#[cfg(jxl_oxide_verif)]
+impl Toc {
+    /// Verification hook: the TOC of a single-section frame whose only section has `size` bytes.
+    pub fn verif_single_entry(size: u32) -> Self {
+        Self {
+            num_lf_groups: 1,
+            num_groups: 1,
+            groups: vec![TocGroup {
+                kind: TocGroupKind::All,
+                offset: 0,
+                size,
+            }],
+            bitstream_to_original: Vec::new(),
+            original_to_bitstream: Vec::new(),
+            total_size: size as usize,
+        }
+    }
+}
